@@ -137,6 +137,15 @@ def background(thunk):
     return fut
 
 
+def pipelined(parts, produce, consume):
+    """consume(produce(part)) for every part, producing the next part while the current one is consumed"""
+    nxt = background(lambda: produce(parts[0])) if parts else None
+    for k in range(len(parts)):
+        cur = nxt.result()
+        nxt = background(lambda q=parts[k + 1]: produce(q)) if k + 1 < len(parts) else None
+        consume(cur)
+
+
 def share(n):
     return max(1, nworkers() // n)
 
